@@ -3,7 +3,7 @@ import os
 import re
 
 import refdiff
-from cfg import Inconclusive, op_place, show, walk, strip_casts
+from cfg import Inconclusive, op_place, show, walk, strip_casts, poly_of, Poly
 from common import (calls_to, callee, callee_names, field_chain, fn_of, get_fn, head_sources, peel, site,
                     guards_of, ret_aggregates, uses_of_local, is_diverging)
 from engine import REPO
@@ -234,11 +234,35 @@ def _twin_max_sources(fn):
     """Both `Some(..)` results of a body generic over INDICES are `max of cell.score over a slice S`: True if the slices
     are the same expression, a description of the difference if not, None if the shape is not recognised."""
     srcs = []
+    results = []
     for bi, si, rv in ret_aggregates(fn):
         if rv.get("variant") != "Some":
             continue
-        e = fn.expr_of_operand(rv["ops"][0])
+        results.append(fn.expr_of_operand(rv["ops"][0]))
+    # `return slice.iter().map(..).max()`: the Option of the maximum is the result itself
+    for dbi, dsi, kind, payload in fn.defs.get(0, []):
+        if kind == "call" and str(payload.get("resolved") or payload.get("fn")).rsplit("::", 1)[-1] in ("max", "max_by_key") and "Iterator" in str(payload.get("fn")):
+            results.append(fn.expr_of_local(0) if len(fn.defs.get(0, [])) == 1 else ("call", payload.get("resolved") or payload.get("fn"), tuple(fn.expr_of_operand(a) for a in payload["args"]), payload.get("fn"), (dbi, 0)))
+    for dbi, dsi, kind, payload in fn.defs.get(0, []):
+        if kind == "assign" and "agg" not in payload:
+            e_ = fn.expr_of_rvalue(payload)
+            if any(x[0] == "call" and str(x[1]).rsplit("::", 1)[-1] in ("max", "max_by_key") and "Iterator" in str(x[1]) for x in walk(e_)):
+                results.append(e_)
+    for e in results:
         mx = [x for x in walk(e) if x[0] == "call" and str(x[1]).rsplit("::", 1)[-1] in ("max", "max_by_key") and "Iterator" in str(x[1])]
+        if not mx:
+            # the score of the cell a hand-written search settled on: `S[best].score` -- the source is S (that the search
+            # finds a maximal cell is not decided here; only that both variants look at the same cells)
+            ix = [x for x in walk(e) if x[0] == "call" and str(x[1]).endswith("::index") and len(x[2]) == 2
+                  and not (strip_casts(x[2][1])[0] == "agg" and "Range" in str(strip_casts(x[2][1])[1]))]
+            if len(ix) == 1:
+                srcs.append(_noid(strip_casts(peel(ix[0][2][0]))))
+                continue
+            px = [x for x in walk(e) if x[0] == "index" and isinstance(x[2], tuple) and x[2] and x[2][0] in ("local", "arg")]
+            if len(px) == 1:
+                srcs.append(_noid(strip_casts(peel(px[0][1]))))
+                continue
+            return None
         if len(mx) != 1:
             return None
         it = [x for x in walk(mx[0][2][0]) if x[0] == "call" and str(x[1]).endswith("[T]>::iter")]
@@ -246,7 +270,7 @@ def _twin_max_sources(fn):
             return None
         if any(x[0] == "call" and str(x[1]).rsplit("::", 1)[-1] in ("rev", "skip", "take", "filter", "step_by", "skip_while", "take_while") for x in walk(mx[0][2][0])):
             return None
-        srcs.append(_noid(strip_casts(it[0][2][0])))
+        srcs.append(_noid(strip_casts(peel(it[0][2][0]))))
     if len(srcs) < 2:
         return None
     def same(a, b):
@@ -313,7 +337,7 @@ def rule_indices_guard(ctx):
                         problems.append("returns from inside the INDICES branch")
                 PURE = ("[T]>::iter", "[T]>::last", "[T]>::first", "[T]>::get", "::index", "Iterator::map", "Iterator::enumerate", "Iterator::max", "Iterator::max_by_key",
                         "Iterator::min", "Iterator::rev", "Iterator::copied", "Iterator::cloned", "IntoIterator::into_iter", "::expect", "::unwrap", "Option::<T>::map",
-                        "cmp::max", "cmp::min", "From>::from", "::from", "::into", "Iterator::next", "Iterator::fold", "Iterator::zip", "Iterator::position")
+                        "cmp::max", "cmp::min", "From>::from", "::from", "::into", "Iterator::next", "Iterator>::next", "IntoIterator>::into_iter", "Iterator::fold", "Iterator::zip", "Iterator::position")
                 soft = [p_ for p_ in problems if p_ == "returns from inside the INDICES branch" or (p_.startswith("calls ") and (any(p_.endswith(x) or x in p_ for x in PURE)))
                         or (p_.startswith("writes _") and "(`None`)" in p_)]
                 hard = [p_ for p_ in problems if p_ not in soft]
@@ -444,12 +468,20 @@ def rule_one_per_char(ctx):
     rp = get_fn(facts, M, "fuzzy_optimal::<impl matrix::MatcherDataView<'_, H>>::reconstruct_optimal_path")
     rz = [(bi, t) for bi, t in rp.calls(lambda t: callee(t).endswith("::resize"))]
     good = False
+    def at_len(x):
+        x = strip_casts(x)
+        if x[0] == "call" and str(x[1]).endswith("::len") and x[2]:
+            what = show(x[2][0])
+            if "indices" in what:
+                return "LEN(indices)"
+            if "row_offs" in what:
+                return "LEN(row_offs)"
+        return None
     for bi, t in rz:
         e = strip_casts(rp.expr_of_operand(t["args"][1]))
-        if e[0] in ("bin", "checked") and e[1] == "Add":
-            a, b = e[2], e[3]
-            if a[0] == "call" and str(a[1]).endswith("::len") and "indices" in show(a[2][0]) and b[0] == "call" and str(b[1]).endswith("::len") and "row_offs" in show(b[2][0]):
-                good = True
+        # old length + one entry per row, however it is spelled (`len + rows.len()`, `len + last_row + 1`)
+        if poly_of(e, at_len) == Poly.atom("LEN(indices)") + Poly.atom("LEN(row_offs)"):
+            good = True
     if good:
         ctx.ok(site(rp, rz[0][0]), "reconstruct_optimal_path grows the vector by len(row_offs) = len(needle)")
     else:
